@@ -193,16 +193,24 @@ def parseExp (r : Str) : Option Int :=
       else none
     else none
 
+/-- the fraction digits after an optional `.` -/
+def fracOf (r1 : Str) : Str :=
+  match r1 with
+  | 46 :: t => t.takeWhile isDigit
+  | _ => []
+
+/-- what follows the optional `. digits` -/
+def afterFrac (r1 : Str) : Str :=
+  match r1 with
+  | 46 :: t => t.dropWhile isDigit
+  | _ => r1
+
 /-- `digits [. digits] [exponent]` with at least one digit in the mantissa -/
 def parseDecBody (neg : Bool) (body : Str) : Option PyFloat :=
   let ip := body.takeWhile isDigit
   let r1 := body.dropWhile isDigit
-  let fp := match r1 with
-    | 46 :: t => t.takeWhile isDigit
-    | _ => []
-  let r2 := match r1 with
-    | 46 :: t => t.dropWhile isDigit
-    | _ => r1
+  let fp := fracOf r1
+  let r2 := afterFrac r1
   if ip = [] ∧ fp = [] then none else
   match parseExp r2 with
   | none => none
